@@ -7,7 +7,9 @@ PROP = dict(
                "clearBit, bulkImport, importRoaring (set/clear), setRow, clearRow, row, rows(column filter), top, top(ids), Blocks, "
                "Snapshot, FlushCache, minRow, maxRow on 1-2 fragments sharing a 2-worker snapshot queue, universe 2 rows x 4 columns. "
                "API level: Set/Clear/Row/Rows/Store/ClearRow/Count/TopN/Sum, Import, ImportRoaring, RecalculateCaches on a set field, "
-               "a time field (views created on the fly) and an int field over 2 shards. The binaries are built with -race: any data "
+               "a time field (views created on the fly) and an int field over 2 shards; every workload opens with a burst in which all clients, "
+               "released by a spin barrier, send the first write to the same fragment-less shard of a fresh field (2-6 shards in turn) or to a time "
+               "view nobody used before, and later requests keep touching further fresh shards; any error returned by a valid request fails the run. The binaries are built with -race: any data "
                "race, panic or failed request fails the run. Each call is stamped with an atomic counter at invocation and response; "
                "the history of every linearizable object (fragment; at API level each (field, shard), multi-shard requests being "
                "projected per shard) is checked with porcupine: writes must return their changed flag, reads the exact content; reads "
